@@ -502,12 +502,13 @@ where
             let head_ref = visitor.mark_branch_point();
             let exit_ref = visitor.mark_branch_point();
             let break_label = Some(exit_ref);
+            let mut locals = locals.clone(); // case block is a scope of its own
             let bodies: Vec<_> = body_statements
                 .iter()
                 .filter_map(|nodes| {
                     walk_stmt_nodes(
                         ctx,
-                        locals,
+                        &mut locals,
                         break_label,
                         nodes,
                         source,
